@@ -64,12 +64,52 @@ def tree_payload(tree) -> list:
     return sorted(out)
 
 
+def cube_coords(spec, waves, shape) -> dict:
+    """Coordinates of a photon cube: always `wavelength`; per `spec` y / x labels, further coordinates (along y,
+    along wavelength, over (y, x), a scalar), given in one of several orders."""
+    spec = spec or {}
+    wl_kind = spec.get("wl_kind", "default")
+    if wl_kind == "decreasing":
+        wl = [900.0 - 100.0 * k for k in range(waves)]
+    elif wl_kind == "uneven":
+        wl = [400.0 + 37.0 * k * k for k in range(waves)]
+    else:
+        wl = [500.0 + 100.0 * k for k in range(waves)]
+    items = [("wavelength", wl)]
+    if spec.get("y") is not None:
+        items.append(("y", [float(v) if v != int(v) else int(v) for v in spec["y"]]))
+    if spec.get("x") is not None:
+        items.append(("x", [float(v) if v != int(v) else int(v) for v in spec["x"]]))
+    for name in spec.get("extra", []):
+        if name == "row_mm":
+            items.append((name, ("y", [0.25 * (i + 1) for i in range(shape[0])])))
+        elif name == "col_name":
+            items.append((name, ("x", [f"c{i}" for i in range(shape[1])])))
+        elif name == "band":
+            items.append((name, ("wavelength", [f"b{i}" for i in range(waves)])))
+        elif name == "mask":
+            items.append((name, (("y", "x"), np.ones(shape, dtype=bool))))
+        elif name == "exposure_id":
+            items.append((name, 7))
+        else:
+            raise ValueError(name)
+    order = int(spec.get("order", 0)) % 3
+    if order == 1:
+        items = items[::-1]
+    elif order == 2:
+        items = items[1:] + items[:1]
+    return dict(items)
+
+
 def _write(detector, a, step):
     """One writer action.  mode = "assign": a new buffer replaces the container's (`.array = new`,
     `.array_3d = new`; charge: `empty()` then `add_charge_array`).  mode = "iadd": the values are added to
     the container's buffer IN PLACE (`+=`, three idioms; charge: `add_charge_array`).  mode = "iset": the
     buffer is overwritten in place (`.array[...] = new`).  On an uninitialised container "iadd" / "iset" can
-    only initialise it (a new buffer)."""
+    only initialise it (a new buffer).
+    `dtypes` (optional): the dtype written at each step (else `dtype` at every step).
+    `cube` (optional, 3-D photon): the coordinates the DataArray handed to the container carries besides
+    `wavelength`: y / x labels (any numbers), further coordinates, the order in which they are given."""
     import xarray as xr
 
     geo = detector.geometry
@@ -83,13 +123,14 @@ def _write(detector, a, step):
     waves = int(a.get("waves", 0))
     shp = ((waves,) + shape) if (b == "photon" and waves) else shape
     arr = (np.arange(int(np.prod(shp)), dtype=object) + int(v)).reshape(shp)
+    dts = a.get("dtypes")
+    want_dt = dts[step] if dts else a["dtype"]
     if b == "photon":
         cur = detector.photon._array
-        dt = a["dtype"] if (cur is None or mode == "assign") else cur.dtype
+        dt = want_dt if (cur is None or mode == "assign") else cur.dtype
         val = arr.astype(dt)
         if waves:
-            val = xr.DataArray(val, dims=["wavelength", "y", "x"],
-                               coords={"wavelength": [500.0 + 100.0 * k for k in range(waves)]})
+            val = xr.DataArray(val, dims=["wavelength", "y", "x"], coords=cube_coords(a.get("cube"), waves, shape))
         if mode == "assign" or (cur is None and mode == "iset"):
             if waves:
                 detector.photon.array_3d = val
@@ -118,7 +159,7 @@ def _write(detector, a, step):
         obj = getattr(detector, b)
         cur = obj._array
         if mode == "assign" or cur is None:
-            obj.array = arr.astype(a["dtype"])
+            obj.array = arr.astype(want_dt)
         elif mode == "iadd":
             val = arr.astype(cur.dtype)
             if idiom == 1:
@@ -163,6 +204,8 @@ def last(detector, group="", name=""):
     vis = visible(detector)
     TRACE.append(dict(kind="model", step=int(detector.pipeline_count), group=group, name=name,
                       before=vis, after=vis))
-    TRACE.append(dict(kind="snap", step=int(detector.pipeline_count),
+    raw = getattr(detector.photon, "_array", None)
+    wl = np.asarray(raw.coords["wavelength"].values).reshape(-1).tolist() if hasattr(raw, "coords") and "wavelength" in raw.coords else []
+    TRACE.append(dict(kind="snap", step=int(detector.pipeline_count), wavelengths=wl,
                       abs_time=float(detector.absolute_time), snap=containers(detector),
                       scene=tree_payload(detector.scene.data), data=tree_payload(detector.data)))
